@@ -11,9 +11,11 @@ def main():
         "setup_cmd": "./setup.sh",
         "hooks": {
             "guard": "OPENDSM_EEMETER_VERIF",
-            "enable": "none needed: contracts are sidecar files under /verif/contracts and the prover reads /repo's source text; no hook code exists in /repo",
+            "enable": "OPENDSM_EEMETER_VERIF=1 in the environment of the process that imports opendsm (set by bounded/C12_fits.py for its fit workers only): "
+                      "OptimizedResult keeps the optimiser's raw vector so that a curve mismatch of a real fit can be attributed to known finding C12-H. "
+                      "The proofs need no hook: contracts are sidecar files and the prover reads /repo's source text",
             "baseline_off_cmd": "cd /repo && /venv/bin/python -m pytest -ra -q -p no:cacheprovider --timeout=900 --continue-on-collection-errors",
-            "source_commits": [],
+            "source_commits": ["00f534c2"],
             "add_only": True,
         },
         "engines": ENGINES,
